@@ -65,6 +65,16 @@ func gen(c *hmain.Ctx) {
 	for i := 0; i < 2*c.Scale; i++ {
 		jobs = append(jobs, &pipedrv.Job{Stream: "expand-procs", Case: pipedrv.ExpandProcs(2500, 1600, 2+i%3, i%2 == 1)})
 	}
+	// families that reach code of the anchored files no older family executes (notes/coverage/C04-triage.md; what each
+	// would expose: pipedrv/gen.go); spread routing (kafka-like input: UseSpread + DisableStreams) is one more way events
+	// reach the streams - the no-wedge monitors do not depend on the routing
+	for _, f := range pipedrv.CoverageFamilies(12, 8, 6, 24, 6) {
+		add(f.Stream, f.Opts, f.N)
+	}
+	add("spread", pipedrv.FamSpread, 10)
+	add("spread-split", pipedrv.FamSpreadSplit, 5)
+	add("spread-create", pipedrv.FamSpreadCreate, 12)
+	jobs = append(jobs, pipedrv.DirectedStops(c.Scale)...)
 	pipedrv.RunJobs(jobs, 40)
 	for _, j := range jobs {
 		pipedrv.Stats(c.W.Count, j)
@@ -75,7 +85,7 @@ func gen(c *hmain.Ctx) {
 func main() {
 	pipedrv.UseProductionNodePool()
 	hmain.Run(&hmain.Prop{ID: "C04",
-		Rule: "pipeline cases as in C02 plus the family 'discard-before-hold' (an action in front of the holding one discards the event that follows a run, then silence) and directed schedules (heartbeat held before tryUnblock while the stream is unblocked and drained). Threshold-crossing families: capacity-1, slow-flush (flush >= 100 ms), hold-slow (event time-out > 200 ms), recycle (feeder op 6: pads up to 64 KiB / > 64 JSON nodes; op 'g' grows Buf; 4th case element = (avgEventSize retentionMs multiplierPercent maintenanceMs)), split-fan (0-14 children with their own ops), retry-backoff, maintenance; directed expand-procs / stale-unblock-slow. Pool cases: streams size-classes (op 8: goroutine size up to 2^32-1) and recycle (op 9; gate-list option (1 avg)). Every case is non-trivial; distinct = distinct case text.",
+		Rule: "pipeline cases as in C02 plus the family 'discard-before-hold' (an action in front of the holding one discards the event that follows a run, then silence) and directed schedules (heartbeat held before tryUnblock while the stream is unblocked and drained). Threshold-crossing families: capacity-1, slow-flush (flush >= 100 ms), hold-slow (event time-out > 200 ms), recycle (feeder op 6: pads up to 64 KiB / > 64 JSON nodes; op 'g' grows Buf; 4th case element = (avgEventSize retentionMs multiplierPercent maintenanceMs)), split-fan (0-14 children with their own ops), retry-backoff, maintenance; directed expand-procs / stale-unblock-slow. Pool cases: streams size-classes (op 8: goroutine size up to 2^32-1) and recycle (op 9; gate-list option (1 avg)). Coverage families (notes/coverage): in-variety (ext's 6th element = ((key value) ...) options of pipedrv.xopts: decoder raw / cri / auto / suggested, MaxEventSize drop / cut-off, antispam threshold, meta data, source-name meta field, saved stream offsets; empty records, non-CRI lines), match-variety (match modes or / and_prefix / or_prefix / do_if / invert, metric options), file-commit (InputPlugin.Commit handed to the real file-input jobProvider.commit: labels 118 / 119), early-stop (Pipeline.Stop with events in flight, random and directed stop-while-held; feeder op 7 asks for the stop; labels 116 / 120), batch-bytes (BatchSizeBytes). spread / spread-split / spread-create (kafka-like input: UseSpread + DisableStreams). Every case is non-trivial; distinct = distinct case text.",
 		Gen:  gen, Exec: func(which int, cs hx.Sx) hx.Sx {
 			if which == 10 || which == 11 {
 				return pooldrv.RunCase(cs)
